@@ -67,6 +67,21 @@ def _num_rules(seed):
     return rr, du
 
 
+# The contract stubs of the quadrature tables are order-sensitive: the rule of the spec is returned only for the order the property names
+# (parameters.quadrature.regular for triangle_gauss.rule, parameters.quadrature.singular for the Duffy rules); any other order gets a different
+# generic rule, so that code asking for the wrong order cannot satisfy the contract.  The two orders are chosen distinct.
+REGULAR_ORDER, SINGULAR_ORDER = 5, 3
+
+
+def _pipeline_parameters():
+    from bempp_cl.api.utils.parameters import DefaultParameters
+
+    p = DefaultParameters()
+    p.quadrature.regular = REGULAR_ORDER
+    p.quadrature.singular = SINGULAR_ORDER
+    return p
+
+
 def run_pipeline(mesh, test_spec, trial_spec, kernel_key=None, numeric=False, seed=0, domain_indices=None, trial_mesh=None,
                  assembly_type="default_scalar", geometry="derived", par_case="ki!=0", trial_domain_indices=None):
     """Execute the real pipeline; returns dict with A (assembled), singular triple, and the context for the spec."""
@@ -125,16 +140,27 @@ def run_pipeline(mesh, test_spec, trial_spec, kernel_key=None, numeric=False, se
 
     desc = OperatorDescriptor("stub", par, kernel_key, assembly_type, "double", False, None, 1)
     stubs = {kernel_key + "_regular": kr, kernel_key + "_singular": ks}
-    params = api.GLOBAL_PARAMETERS
+    params = _pipeline_parameters()
+    if numeric:
+        rr_other, du_other = _num_rules(seed + 977)
+    else:
+        rr_other, du_other = SG.sym_regular_rule(2, tag="qx")(0), SG.sym_duffy(tag="dx")
+
+    def rule_stub(order):
+        return rr if order == REGULAR_ORDER else rr_other
+
+    def duffy_stub(order):
+        return du if order == SINGULAR_ORDER else du_other
+
     if numeric:
         from bempp_cl.api.integration import triangle_gauss, duffy_galerkin
         from bempp_cl.core import numba_kernels as NK
 
         saved = (triangle_gauss.rule, duffy_galerkin.rule, duffy_galerkin.number_of_quadrature_points,
                  getattr(NK, kernel_key + "_regular"), getattr(NK, kernel_key + "_singular"))
-        triangle_gauss.rule = lambda order: rr
-        duffy_galerkin.rule = lambda order, adjacency: du[adjacency]
-        duffy_galerkin.number_of_quadrature_points = lambda order, adjacency: len(du[adjacency][2])
+        triangle_gauss.rule = rule_stub
+        duffy_galerkin.rule = lambda order, adjacency: duffy_stub(order)[adjacency]
+        duffy_galerkin.number_of_quadrature_points = lambda order, adjacency: len(duffy_stub(order)[adjacency][2])
         setattr(NK, kernel_key + "_regular", kr)
         setattr(NK, kernel_key + "_singular", ks)
         try:
@@ -148,7 +174,7 @@ def run_pipeline(mesh, test_spec, trial_spec, kernel_key=None, numeric=False, se
         from bempp_cl.core import numba_kernels as _NK
         from vlib.objnp import patched as _patched
 
-        with SG.object_pipeline(lambda order: rr, du, stubs), _patched(_NK):
+        with SG.object_pipeline(rule_stub, duffy_stub, stubs), _patched(_NK):
             A = assemble_dense(trial, test, params, desc, "numba")
             sing = assemble_singular_part(trial.localised_space, test.localised_space, params, desc, "numba") if tgrid is grid else None
     return dict(A=A, sing=sing, grid=grid, tgrid=tgrid, test=test, trial=trial, geo_t=geo_t, geo_r=geo_r, rr=rr, du=du, K=K, par=par)
